@@ -129,7 +129,7 @@ pub fn run(sc: &Value) -> Value {
     let parse_altered = reser != v;
     // wire-trip scenarios: the value built through the constructors when that is possible (link), else the parsed value
     let meta = if sc["wire_trip"] == true || sc["via_api"] == true {
-        link_via_api(&v).map(MetadataWrapper::Link).or_else(|| if sc["via_api"] == true { layout_via_api(&v).map(MetadataWrapper::Layout) } else { None }).unwrap_or(meta)
+        link_via_api(&v).map(MetadataWrapper::Link).or_else(|| if sc["via_api"] == true || sc["wire_trip"] == true { layout_via_api(&v).map(MetadataWrapper::Layout) } else { None }).unwrap_or(meta)
     } else { meta };
     let wire_ok: Option<bool> = if sc["wire_trip"] == true { Some(wire_trip_verifies(meta.clone(), &key)) } else { None };
     let mb = Metablock::new(meta, &[&key]).expect("sign");
